@@ -8,6 +8,10 @@
 //   X <N*D doubles, sample-major>
 //        tapkee::embed with the eigen callbacks (linear kernel, euclidean distance, features)
 //        -> R <id> OK E <rows> <cols> ... | R <id> EXC <name> | R <id> BADCASE <why>
+//   NBR <id> nm=<brute|vptree|covertree> k=<int> cc=<0|1> kd=<0|1: kernel-induced distance> N=<int> D=<int>
+//   X <N*D doubles>
+//        tapkee_internal::find_neighbors(method, begin, end, PlainDistance / KernelDistance, k, cc)
+//        -> R <id> OK NB <N> <len_0> <entries..> <len_1> ... | R <id> EXC <name>
 // Output (every line flushed):
 //   C <id>       marker printed BEFORE the call (a crash / hang belongs to it)
 //   R <id> ...   result
@@ -256,6 +260,74 @@ static void run_emb(long id, std::map<std::string, std::string>& kv, const std::
     }
 }
 
+static void run_nbr(long id, std::map<std::string, std::string>& kv, const std::string& xline)
+{
+    int N = atoi(kv["N"].c_str()), D = atoi(kv["D"].c_str()), k = atoi(kv["k"].c_str());
+    if (N <= 0 || D <= 0 || N > 100000 || D > 10000 || k <= 0)
+    {
+        printf("R %ld BADCASE size\n", id);
+        return;
+    }
+    DenseMatrix X(D, N);
+    {
+        std::istringstream ss(xline.size() > 1 ? xline.substr(1) : std::string());
+        std::vector<double> v;
+        if (!get_doubles(ss, (long)N * D, v))
+        {
+            printf("R %ld BADCASE data\n", id);
+            return;
+        }
+        for (int i = 0; i < N; i++)
+            for (int j = 0; j < D; j++)
+                X(j, i) = v[(size_t)i * D + j];
+    }
+    const std::string nm = kv["nm"];
+    NeighborsMethod method = nm == "vptree" ? VpTree : (nm == "covertree" ? CoverTree : Brute);
+    bool cc = kv.count("cc") && kv["cc"] == "1";
+    bool kd = kv.count("kd") && kv["kd"] == "1";
+    typedef std::vector<IndexType>::iterator It;
+    std::vector<IndexType> idx(N);
+    for (int i = 0; i < N; i++)
+        idx[i] = i;
+    eigen_kernel_callback kcb(X);
+    eigen_distance_callback dcb(X);
+    alarm(kv.count("wd") ? atoi(kv["wd"].c_str()) : 20);
+    try
+    {
+        tapkee_internal::Neighbors nb;
+        if (kd)
+            nb = tapkee_internal::find_neighbors(method, idx.begin(), idx.end(),
+                                                 tapkee_internal::KernelDistance<It, eigen_kernel_callback>(kcb), k, cc);
+        else
+            nb = tapkee_internal::find_neighbors(method, idx.begin(), idx.end(),
+                                                 tapkee_internal::PlainDistance<It, eigen_distance_callback>(dcb), k, cc);
+        alarm(0);
+        std::ostringstream os;
+        os << "R " << id << " OK NB " << nb.size();
+        for (size_t i = 0; i < nb.size(); i++)
+        {
+            os << " " << nb[i].size();
+            for (size_t a = 0; a < nb[i].size(); a++)
+                os << " " << nb[i][a];
+        }
+        puts(os.str().c_str());
+    }
+    catch (const std::exception& ex)
+    {
+        alarm(0);
+        std::string w = ex.what();
+        for (auto& c : w)
+            if (c == '\n' || c == '\r')
+                c = ' ';
+        printf("R %ld EXC std::exception:%s\n", id, w.substr(0, 120).c_str());
+    }
+    catch (...)
+    {
+        alarm(0);
+        printf("R %ld EXC unknown\n", id);
+    }
+}
+
 int main()
 {
     std::ios::sync_with_stdio(true);
@@ -276,7 +348,24 @@ int main()
         if (!(ss >> cmd >> id))
             continue;
         g_current_id = id;
-        if (cmd == "EMB")
+        if (cmd == "NBR")
+        {
+            std::map<std::string, std::string> kv;
+            std::string tok;
+            while (ss >> tok)
+            {
+                size_t e = tok.find('=');
+                if (e != std::string::npos)
+                    kv[tok.substr(0, e)] = tok.substr(e + 1);
+            }
+            std::string xline;
+            if (!std::getline(std::cin, xline))
+                break;
+            printf("C %ld\n", id);
+            fflush(stdout);
+            run_nbr(id, kv, xline);
+        }
+        else if (cmd == "EMB")
         {
             std::map<std::string, std::string> kv;
             std::string tok;
